@@ -105,6 +105,17 @@ def cases(rng, tier):
         f, roots = planted(rng, pw, 4)
         kind = 'split' if len(roots) == deg(red(f, pw)) and roots else 'rootless' if not roots else 'mixed'
         out.append(roots_case(rng, f, pw, 'planted-%s-p-word-boundary' % kind, roots, profile='release' if i % 2 else 'debug'))
+    # ---- long inputs: roots of multiplicity 65..130 (the recursion of the odd-p routine is as deep as the largest multiplicity)
+    for pw, mult, extra in [(23, 100, []), (23, 90, [1, 0, 1]), (7, 70, [6, 0, 1]), (101, 66, []), (3, 130, [])]:
+        r0 = rng.randrange(pw)
+        f = [1]
+        for _ in range(mult): f = pmul(f, [(-r0) % pw, 1], pw)
+        if extra: f = pmul(f, extra, pw)
+        roots = [r0] * mult + ([x_ for x_ in range(pw) if sum(c_ * x_ ** i_ for i_, c_ in enumerate(extra)) % pw == 0] if extra and pw < 200 else [])
+        if extra and pw < 200:
+            # multiplicities of the extra factor's roots (all simple here unless equal to r0)
+            pass
+        out.append(roots_case(rng, f, pw, 'high-multiplicity-65+', None))
     # ---- scripted first draw
     for i in range(400 if th else 90):
         p = primes[2 + i % (len(primes) - 2)]
